@@ -108,6 +108,10 @@ class Check:
         print("%s %s: evaluations=%d nontrivial=%d outcomes=%d exhaustive=%s wall=%.1fs %s" % (
             self.prop, self.tier, self.evaluations, len(self.nontrivial), len(self.outcomes), self.exhaustive, wall,
             " ".join("%s=%s" % (k, v) for k, v in self.extra.items() if isinstance(v, (int, float, bool)))))
+        if self.extra.get("harness_errors"):
+            for e in self.extra["harness_errors"][:10]:
+                print("HARNESS-ERROR %s: %s" % (self.prop, str(e)[:600]))
+            return 2
         if self.violations:
             rdir = os.path.join(VERIF, "replay", self.prop)
             os.makedirs(rdir, exist_ok=True)
@@ -126,3 +130,30 @@ class Check:
             print("%s: %d violation(s) in %d classes" % (self.prop, len(self.violations), len(seen)))
             return 1
         return 0
+
+
+def export_state(chk):
+    return {"evaluations": chk.evaluations, "nontrivial": chk.nontrivial, "samples": chk.samples,
+            "violations": chk.violations, "known": chk.known, "outcomes": chk.outcomes, "exhaustive": chk.exhaustive,
+            "extra": chk.extra}
+
+
+def merge_state(chk, st):
+    chk.evaluations += st["evaluations"]
+    chk.nontrivial |= st["nontrivial"]
+    for s in st["samples"]:
+        chk.sample(s)
+    chk.violations += st["violations"]
+    for k, (n, ex) in st["known"].items():
+        cur = chk.known.setdefault(k, [0, ex])
+        cur[0] += n
+    chk.outcomes |= st["outcomes"]
+    chk.exhaustive = chk.exhaustive and st["exhaustive"]
+    for k, v in st["extra"].items():
+        if isinstance(v, (int, float)) and not isinstance(v, bool):
+            chk.extra[k] = chk.extra.get(k, 0) + v
+        elif isinstance(v, list):
+            chk.extra.setdefault(k, [])
+            chk.extra[k] += v
+        else:
+            chk.extra[k] = v
